@@ -71,4 +71,5 @@ let rel_wrap_ctl (fs : string list) : string =
        whole_hang [t2] (Printf.sprintf "t1=%s|t2=%s" (hx (text r1)) t2))
 
 let () = register "rel-wrap" rel_wrap
+let () = register "rel-wrap-text" rel_wrap
 let () = register "rel-wrap-ctl" rel_wrap_ctl
